@@ -202,14 +202,54 @@ def gen_LB():
                         yield cfg
 
 
+def gen_LC():
+    """`context` as a parameter at every position of the chain (only the render phase may require it)."""
+    for level in ('app', 'route'):
+        for ph in PHASES:
+            for role in ('req', 'def', 'kwreq', 'kwdef'):
+                for with_render in (False, True):
+                    cfg = empty_cfg()
+                    mw = {'level': level, 'type': 'T0'}
+                    mw[ph] = fspec([('context', role)])
+                    cfg['mws'].append(mw)
+                    cfg['endpoint'] = fspec([])
+                    cfg['render'] = fspec([('context', 'req')]) if with_render else None
+                    yield cfg
+    for role in ('req', 'def', 'kwreq', 'kwdef'):
+        for with_render in (False, True):
+            for mwlevel in (None, 'app'):
+                cfg = empty_cfg()
+                if mwlevel:
+                    cfg['mws'].append({'level': mwlevel, 'type': 'T0', 'request': fspec([]), 'endpoint': fspec([])})
+                cfg['endpoint'] = fspec([('context', role)])
+                cfg['render'] = fspec([('context', 'def')]) if with_render else None
+                yield cfg
+                cfg = empty_cfg()
+                if mwlevel:
+                    cfg['mws'].append({'level': mwlevel, 'type': 'T0', 'render': fspec([('context', 'def')])})
+                cfg['endpoint'] = fspec([])
+                cfg['render'] = fspec([('context', role)])
+                yield cfg
+
+
+def gen_LE(m):
+    """The L1a configurations again, but with the application embedded in an outer application (resources of
+    the embedded application must still reach its routes)."""
+    for cfg in gen_L1a(m, True):
+        cfg['embedded'] = True
+        cfg['outer_res'] = []
+        yield cfg
+
+
 def layers(tier):
     if tier == 'quick':
         return [('L1a-0', lambda: gen_L1a(0, False)), ('L1a-1', lambda: gen_L1a(1, False)),
                 ('L1a-2r', lambda: gen_L1a(2, True)), ('L1c', gen_L1c), ('L2-1', lambda: gen_L2(1)),
-                ('LB', gen_LB)]
+                ('LB', gen_LB), ('LC', gen_LC), ('LE-1', lambda: gen_LE(1))]
     return [('L1a-0', lambda: gen_L1a(0, False)), ('L1a-1', lambda: gen_L1a(1, False)),
             ('L1a-2', lambda: gen_L1a(2, False)), ('L1b-3', lambda: gen_L1b(3)), ('L1b-4', lambda: gen_L1b(4)),
-            ('L1c', gen_L1c), ('L2-1', lambda: gen_L2(1)), ('L2-2', lambda: gen_L2(2)), ('LB', gen_LB)]
+            ('L1c', gen_L1c), ('L2-1', lambda: gen_L2(1)), ('L2-2', lambda: gen_L2(2)), ('LB', gen_LB), ('LC', gen_LC),
+            ('LE-1', lambda: gen_LE(1)), ('LE-2', lambda: gen_LE(2))]
 
 
 def cfg_roles(cfg):
@@ -241,7 +281,7 @@ def innermost_clastic_frame(exc):
 
 
 def check_config(acc, h, cfg, layer, reraise_handler):
-    info = B.analyse(cfg)
+    info = B.analyse_all(cfg)
     acc.evaluated += 1
     acc.transitions += 1
     acc.validated += 1
